@@ -175,7 +175,9 @@ CLAIMED = {
     text='PARTIAL. A Gallina model of the RNN wrapper (flip_sequences for reverse, the scan over all steps, _select_last_carry at seq_len - 1, keep_order) and of the decode-cache bookkeeping of '
          'attention, both parametric in the cell / attention function. Proved for every cell, carry, sequence and seq_len in [1, T]: the valid outputs and the returned carry are those of the '
          'Python loop over the valid inputs (reversed within the valid length for reverse); padded inputs are inert; keep_order only flips the valid outputs back; stepwise decoding through the '
-         'cache equals whole-sequence attention under the causal mask for every attention function and cache size. Tied to /repo per run: an integer cell under nn.RNN / nnx.RNN / Bidirectional '
+         'cache equals whole-sequence attention under the causal mask for every attention function and cache size; make_attention_mask is the pairwise predicate, row i of make_causal_mask '
+         'selects exactly the keys 0 .. i (the prefix the decode cache holds at step i), combine_masks is the pointwise conjunction of the masks given and None when none is. Tied to /repo '
+         'per run: the mask helpers of Linen and NNX on integer inputs in four dtypes (values a half-precision float cannot represent included) against the model; an integer cell under nn.RNN / nnx.RNN / Bidirectional '
          '(batch shapes (), (b,), (b1,b2), time_major, initial carries) compared exactly with the model; the real cells against numpy recurrences and the manual loop with padded inputs '
          'perturbed; attention weights against a numpy softmax, masked weights exactly zero, ignored keys / values perturbed; decode vs causal in Linen and NNX on the same parameters.',
     note='Trusted: Coq kernel, vm_compute, harness (numpy recurrences and softmax), jaxcompat, float64. NOT proved: softmax / zero weight of masked positions (exp underflow of finfo.min), the cell '
@@ -226,7 +228,7 @@ CLAIMED = {
     ref='DESIGN.md section 5, C17'),
   'C18': dict(
     text='PARTIAL. A Gallina model of the conversions behind the Linen<->NNX bridge (linen_vars_to_nnx_attrs / nnx_attrs_to_linen_vars / _recursive_merge on flattened trees, collections merged in '
-         'sorted order, ToNNX merging the updates of mutable collections, the name<->type registry with allow_register). Proved: the registry stays injective and its two lookups are inverse; '
+         'sorted order, ToNNX merging the updates of mutable collections, the name<->type registry with allow_register). Proved: the registry stays injective and its two lookups are inverse; register_variable_name(overwrite) re-binds exactly the given name (a type that lost its name is looked up afresh); '
          'merging updates changes exactly the updated leaves at any depth; reading attributes back as Linen variables is faithful (names, values, collection by registered type), hence the '
          'state of a ToNNX wrapper after a call is the old state overwritten by the updates. Tied to /repo per run: ToNNX around random Linen module programs (lazy_init and 1-3 calls with '
          'mutable sets) compared with Model/Linen.v\'s apply on the variables the wrapper holds plus the bridge model, and with the real Module.apply; ToLinen around NNX modules compared with '
